@@ -577,6 +577,9 @@ def orchestrate(pid, tier, seed, replay):
                 new[bucket] = (case, msg)
         for what in known_hit:
             print(f"KNOWN-FINDING: property={pid} {what}")
+        for k in known:  # listed findings this run's cases did not reach (e.g. only the thorough tier generates them)
+            if k.get("property") == pid and k.get("status") == "open" and k["what"] not in known_hit:
+                print(f"KNOWN-FINDING: property={pid} {k['what']} [listed; not re-exercised by the cases of this run]")
 
         # 4. shrink new buckets and write replays
         replays = []
